@@ -104,6 +104,11 @@ type solverCmd struct {
 
 var solverCmds = []solverCmd{
 	{"z3-5.1.0", "z3-new", func(sec int) []string { return []string{fmt.Sprintf("-T:%d", sec)} }},
+	// pure E-matching (no model-based instantiation): answers `unknown` at once when the triggers do not
+	// reach a proof, and is often much faster than the default configuration when they do
+	{"z3-5.1.0-ematch", "z3-new", func(sec int) []string {
+		return []string{fmt.Sprintf("-T:%d", sec), "smt.auto_config=false", "smt.mbqi=false"}
+	}},
 	{"z3-4.8.12", "z3", func(sec int) []string { return []string{fmt.Sprintf("-T:%d", sec)} }},
 	{"cvc5-1.0.3", "cvc5", func(sec int) []string { return []string{fmt.Sprintf("--tlimit=%d", sec*1000)} }},
 }
@@ -156,11 +161,23 @@ func (s *Solver) race(file string) Answer {
 			quick = sec
 		}
 		ctx, cancel := context.WithTimeout(context.Background(), time.Duration(quick+1)*time.Second)
-		r, out := runOne(ctx, solverCmds[0].bin, solverCmds[0].args(quick), file)
-		cancel()
-		if r == "unsat" || r == "sat" {
-			return Answer{Result: r, Solver: solverCmds[0].name, Output: out}
+		type r1 struct{ r, out, name string }
+		c1 := make(chan r1, 2)
+		for _, sc := range solverCmds[:2] {
+			sc := sc
+			go func() {
+				r, out := runOne(ctx, sc.bin, sc.args(quick), file)
+				c1 <- r1{r, out, sc.name}
+			}()
 		}
+		for i := 0; i < 2; i++ {
+			a := <-c1
+			if a.r == "unsat" || a.r == "sat" {
+				cancel()
+				return Answer{Result: a.r, Solver: a.name, Output: a.out}
+			}
+		}
+		cancel()
 	}
 	type res struct {
 		r, out, solver string
@@ -265,16 +282,18 @@ func (s *Solver) SolveEither(q1, q2 string) Answer {
 	start := time.Now()
 	ctx, cancel := context.WithTimeout(context.Background(), time.Duration(sec+2)*time.Second)
 	defer cancel()
-	ch := make(chan res, 2)
+	ch := make(chan res, 4)
 	for i, f := range []string{f1, f2} {
-		i, f := i, f
-		go func() {
-			r, out := runOne(ctx, solverCmds[0].bin, solverCmds[0].args(sec), f)
-			ch <- res{Answer{Result: r, Solver: solverCmds[0].name, Output: out, File: f}, i}
-		}()
+		for _, sc := range solverCmds[:2] {
+			i, f, sc := i, f, sc
+			go func() {
+				r, out := runOne(ctx, sc.bin, sc.args(sec), f)
+				ch <- res{Answer{Result: r, Solver: sc.name, Output: out, File: f}, i}
+			}()
+		}
 	}
 	best := Answer{Result: "timeout", Solver: "all", File: f1}
-	for n := 0; n < 2; n++ {
+	for n := 0; n < 4; n++ {
 		r := <-ch
 		if r.a.Result == "unsat" || r.a.Result == "sat" {
 			cancel()
@@ -324,7 +343,10 @@ func (s *Solver) SolveQuick(query string, sec int) Answer {
 	start := time.Now()
 	ctx, cancel := context.WithTimeout(context.Background(), time.Duration(sec+1)*time.Second)
 	defer cancel()
-	r, out := runOne(ctx, solverCmds[0].bin, solverCmds[0].args(sec), file)
+	r, out := runOne(ctx, solverCmds[1].bin, solverCmds[1].args(sec), file)
+	if r != "unsat" {
+		r, out = runOne(ctx, solverCmds[0].bin, solverCmds[0].args(sec), file)
+	}
 	a := Answer{Result: r, Solver: solverCmds[0].name + "/sliced", Output: out, File: file, Ms: time.Since(start).Milliseconds()}
 	if r == "unsat" {
 		s.mu.Lock()
